@@ -145,6 +145,69 @@ fn map_edits(m: &MapSpec) -> Vec<(&'static str, MapSpec)> {
       Some(f) => Some(format!("{f}x")),
     };
   });
+  // spellings a normalising step would fold together: a trailing or doubled separator, a leading "./", letter
+  // case, surrounding blanks
+  fn respell(s: &str, k: usize) -> String {
+    match k {
+      0 => match s.strip_suffix('/') {
+        Some(t) => t.to_string(),
+        None => format!("{s}/"),
+      },
+      1 => match s.strip_prefix("./") {
+        Some(t) => t.to_string(),
+        None => format!("./{s}"),
+      },
+      2 => {
+        let u = s.to_uppercase();
+        if u == s {
+          s.to_lowercase()
+        } else {
+          u
+        }
+      }
+      3 => format!("{s} "),
+      4 => format!(" {s}"),
+      _ => s.replacen('/', "//", 1),
+    }
+  }
+  for k in 0..6 {
+    push("map: sourceRoot respelled (trailing '/', './', case, blanks, '//')", &|n| {
+      if let Some(r) = &n.root {
+        n.root = Some(respell(r, k));
+      }
+    });
+  }
+  for k in [0, 1, 2, 5] {
+    push("map: source name respelled (trailing '/', './', case, '//')", &|n| {
+      if let Some(s) = n.sources.last_mut() {
+        *s = respell(s, k);
+      }
+    });
+  }
+  for k in [0, 2, 3] {
+    push("map: file respelled (trailing '/', case, blank)", &|n| {
+      if let Some(f) = &n.file {
+        n.file = Some(respell(f, k));
+      }
+    });
+  }
+  for k in [2, 3, 4] {
+    push("map: name string respelled (case, blanks)", &|n| {
+      if let Some(s) = n.names.last_mut() {
+        *s = respell(s, k);
+      }
+    });
+    push("map: debugId respelled (case, blanks)", &|n| {
+      if let Some(f) = &n.debug_id {
+        n.debug_id = Some(respell(f, k));
+      }
+    });
+  }
+  push("map: sourcesContent entry gains a trailing line break", &|n| {
+    if let Some(s) = n.contents.last_mut() {
+      s.push('\n');
+    }
+  });
   // absent <-> present but empty
   push("map: sourceRoot absent <-> empty", &|n| {
     n.root = match n.root.as_deref() {
@@ -212,6 +275,9 @@ fn node_edits(s: &Spec, include_sms_name: bool) -> Vec<(&'static str, Spec)> {
         out.push(("leaf text", Spec::Orig { text: n, name: name.clone() }));
       }
       out.push(("original file name", Spec::Orig { text: text.clone(), name: format!("{name}.x") }));
+      out.push(("original file name respelled (trailing '/', './', case)", Spec::Orig { text: text.clone(), name: format!("{name}/") }));
+      out.push(("original file name respelled (trailing '/', './', case)", Spec::Orig { text: text.clone(), name: format!("./{name}") }));
+      out.push(("original file name respelled (trailing '/', './', case)", Spec::Orig { text: text.clone(), name: name.to_uppercase() }));
       out.push(("type tag: OriginalSource -> RawSource", Spec::Raw(text.clone())));
     }
     Spec::Sms { text, name, map, full } => {
@@ -404,7 +470,7 @@ fn rebuild(parent: &Spec, child_index: usize, new_child: Spec) -> Spec {
 pub fn all_edits(s: &Spec, include_sms_name: bool) -> Vec<Edit> {
   fn go(s: &Spec, depth: usize, include_sms_name: bool) -> Vec<Edit> {
     let mut out: Vec<Edit> =
-      node_edits(s, include_sms_name).into_iter().map(|(kind, result)| Edit { kind, depth, result }).collect();
+      node_edits(s, include_sms_name).into_iter().filter(|(k, r)| r != s || k.contains("no observable change")).map(|(kind, result)| Edit { kind, depth, result }).collect();
     for (i, c) in s.children().into_iter().enumerate() {
       for e in go(c, depth + 1, include_sms_name) {
         out.push(Edit { kind: e.kind, depth: e.depth, result: rebuild(s, i, e.result) });
